@@ -48,19 +48,19 @@ Variable maxvec : N.
 Hypothesis Hmax : maxvec + 1 < 2 ^ 64.
 Hypothesis Hmin : 4 <= maxvec.
 Variables cap_txin cap_txout cap_vecu8 cap_h32 : N.
-Variables pt_ok pk_ok xonly_ok btctx_ok xpub_ok : bytes -> bool.
+Variables pt_ok pk_ok xonly_ok : bytes -> bool.
 Variables Hrip Hsha Hh160 Hh256 : bytes -> bytes.
 Variables Hleaf Hbranch : bytes -> bytes.
 
-Notation row_of_desc := (row_of_desc maxvec cap_txin cap_txout cap_vecu8 cap_h32 pt_ok pk_ok xonly_ok btctx_ok xpub_ok Hrip Hsha Hh160 Hh256 Hleaf Hbranch).
-Notation TG := (Tg maxvec cap_txin cap_txout cap_vecu8 cap_h32 pt_ok pk_ok xonly_ok btctx_ok xpub_ok Hrip Hsha Hh160 Hh256 Hleaf Hbranch).
-Notation TI := (Ti maxvec cap_txin cap_txout cap_vecu8 cap_h32 pt_ok pk_ok xonly_ok btctx_ok xpub_ok Hrip Hsha Hh160 Hh256 Hleaf Hbranch).
-Notation TO := (To maxvec cap_txin cap_txout cap_vecu8 cap_h32 pt_ok pk_ok xonly_ok btctx_ok xpub_ok Hrip Hsha Hh160 Hh256 Hleaf Hbranch).
-Notation POSTG := (postg maxvec cap_txin cap_txout cap_vecu8 cap_h32 pt_ok pk_ok xonly_ok btctx_ok xpub_ok Hrip Hsha Hh160 Hh256 Hleaf Hbranch).
-Notation POSTI := (posti maxvec cap_txin cap_txout cap_vecu8 cap_h32 pt_ok pk_ok xonly_ok btctx_ok xpub_ok Hrip Hsha Hh160 Hh256 Hleaf Hbranch).
-Notation POSTO := (posto maxvec cap_txin cap_txout cap_vecu8 cap_h32 pt_ok pk_ok xonly_ok btctx_ok xpub_ok Hrip Hsha Hh160 Hh256 Hleaf Hbranch).
-Notation SER := (pset_serialize maxvec cap_txin cap_txout cap_vecu8 cap_h32 pt_ok pk_ok xonly_ok btctx_ok xpub_ok Hrip Hsha Hh160 Hh256 Hleaf Hbranch).
-Notation DESER := (pset_deserialize maxvec cap_txin cap_txout cap_vecu8 cap_h32 pt_ok pk_ok xonly_ok btctx_ok xpub_ok Hrip Hsha Hh160 Hh256 Hleaf Hbranch).
+Notation row_of_desc := (row_of_desc maxvec cap_txin cap_txout cap_vecu8 cap_h32 pt_ok pk_ok xonly_ok Hrip Hsha Hh160 Hh256 Hleaf Hbranch).
+Notation TG := (Tg maxvec cap_txin cap_txout cap_vecu8 cap_h32 pt_ok pk_ok xonly_ok Hrip Hsha Hh160 Hh256 Hleaf Hbranch).
+Notation TI := (Ti maxvec cap_txin cap_txout cap_vecu8 cap_h32 pt_ok pk_ok xonly_ok Hrip Hsha Hh160 Hh256 Hleaf Hbranch).
+Notation TO := (To maxvec cap_txin cap_txout cap_vecu8 cap_h32 pt_ok pk_ok xonly_ok Hrip Hsha Hh160 Hh256 Hleaf Hbranch).
+Notation POSTG := (postg maxvec cap_txin cap_txout cap_vecu8 cap_h32 pt_ok pk_ok xonly_ok Hrip Hsha Hh160 Hh256 Hleaf Hbranch).
+Notation POSTI := (posti maxvec cap_txin cap_txout cap_vecu8 cap_h32 pt_ok pk_ok xonly_ok Hrip Hsha Hh160 Hh256 Hleaf Hbranch).
+Notation POSTO := (posto maxvec cap_txin cap_txout cap_vecu8 cap_h32 pt_ok pk_ok xonly_ok Hrip Hsha Hh160 Hh256 Hleaf Hbranch).
+Notation SER := (pset_serialize maxvec cap_txin cap_txout cap_vecu8 cap_h32 pt_ok pk_ok xonly_ok Hrip Hsha Hh160 Hh256 Hleaf Hbranch).
+Notation DESER := (pset_deserialize maxvec cap_txin cap_txout cap_vecu8 cap_h32 pt_ok pk_ok xonly_ok Hrip Hsha Hh160 Hh256 Hleaf Hbranch).
 
 (* every row built from a descriptor satisfies the row laws *)
 Lemma row_of_desc_ok d : row_ok (row_of_desc d).
